@@ -18,8 +18,14 @@ KEYS = {
 GAME = {'wowsreplay': 'wows', 'wowpreplay': 'wowp', 'wotreplay': 'wot'}
 
 
-def compress(stream, level=6, strategy=zlib.Z_DEFAULT_STRATEGY, wbits=15):
-    c = zlib.compressobj(level, zlib.DEFLATED, wbits, 8, strategy)
+def compress(stream, level=6, strategy=zlib.Z_DEFAULT_STRATEGY, wbits=None, mem=None):
+    # any RFC 1950 stream is a well-formed payload: the window size (9..15 bits, visible in the first byte of the stream) and the memory
+    # level are chosen from the content, so that every writer of containers in the harness varies them
+    if wbits is None:
+        wbits = 9 + zlib.crc32(stream) % 7
+    if mem is None:
+        mem = 1 + zlib.crc32(stream[::-1]) % 9
+    c = zlib.compressobj(level, zlib.DEFLATED, wbits, mem, strategy)
     return c.compress(stream) + c.flush()
 
 
